@@ -163,15 +163,17 @@ def prior_run(
 
 def conditions(tier):
     conds = []
-    K = 4 if tier == "quick" else 7
+    K = 4 if tier == "quick" else 5
     tmo = 600 if tier == "quick" else 3000
     for sh in ("one", "chain2", "indep2"):
         n = len(schedlib.SHAPES[sh])
         for pos in range(1, n + 2):
+            if tier == "quick" and sh == "indep2" and pos == 2:
+                continue
             c = {"name": f"duplicates/{sh}/at{pos}", "func": "duplicates", "shard": {"shape": sh, "K": K, "positions": [pos], "ndup": 1}, "timeout": tmo}
             conds.extend(schedlib.with_prefixes(c, 2) if sh == "indep2" else [c])
     conds.append({"name": "duplicates/chain2/two", "func": "duplicates", "shard": {"shape": "chain2", "K": K, "positions": [1, 3], "ndup": 2}, "timeout": tmo})
-    for sh in ("one", "chain2", "chain3", "fork3", "join3"):
+    for sh in ("one", "chain2", "chain3", "join3") if tier == "quick" else ("one", "chain2", "chain3", "fork3", "join3"):
         c = {"name": f"prior/{sh}", "func": "prior_run", "shard": {"shape": sh, "K": K}, "timeout": tmo}
         conds.extend(schedlib.with_prefixes(c, 2) if sh in ("fork3", "join3") else [c])
     conds.append({"name": "overlap/two", "func": "overlap", "shard": {"procs": 2}, "timeout": tmo})
